@@ -13,7 +13,12 @@ func init() {
 // selection of instances.
 func vfFlushRun(pre vfPreCfg, fixLow, order bool) { vfFlushRunX(pre, fixLow, false, true, order) }
 
-func vfFlushRunX(pre vfPreCfg, fixLow, splitLow, rich, order bool) {
+func vfFlushRunX(pre vfPreCfg, fixLow, splitLow, rich, order bool) { vfFlushRunP(pre, fixLow, splitLow, rich, order, false) }
+
+// vfFlushRunP: post adds three symbolic operations after the Flush - a next-hop ADD, a group ADD and a group
+// DELETE in one (symbolic) instance - each judged by the reference: what the Flush left behind (entries of
+// other instances that still point into the flushed one, their counters) must still protect / release correctly.
+func vfFlushRunP(pre vfPreCfg, fixLow, splitLow, rich, order, post bool) {
 	r, ref := vfNewPair(true)
 	g := &vfGen{rich: rich, fixLow: fixLow, splitLow: splitLow}
 	if order {
@@ -39,6 +44,19 @@ func vfFlushRunX(pre vfPreCfg, fixLow, splitLow, rich, order bool) {
 		vfAssert(len(a.Ipv4Entry)+len(a.Ipv6Entry)+len(a.LabelEntry)+len(a.NextHopGroup)+len(a.NextHop) == 0, "C08:flushed-instance-empty")
 	}
 	vfAssert(err == nil, "C08:flush-answers-ok-when-everything-was-removed")
+	if post {
+		ni := vfKnownNI("post")
+		nh := &vfOpD{id: g.id(), typ: vfADD, kind: vfKNH, ni: ni, idx: vfU64("post.nh"), hasBody: true}
+		vfSubmit(r, ref, nh)
+		grp := &vfOpD{id: g.id(), typ: vfADD, kind: vfKNHG, ni: ni, idx: vfU64("post.nhg"), hasBody: true, members: []vfMember{{idx: nh.idx}}}
+		vfSubmit(r, ref, grp)
+		ref.compare(r)
+		del := &vfOpD{id: g.id(), typ: vfDELETE, kind: vfKNHG, ni: ni, idx: vfU64("post.del"), hasBody: true}
+		if vfSubmit(r, ref, del) == vfStFailed {
+			vfReach("post-delete-refused")
+		}
+		ref.compare(r)
+	}
 	vfReach("end")
 }
 
@@ -48,7 +66,7 @@ func VfC08_flush_q() {
 
 // flush_qx: a next-hop and a group in each instance, two IPv4 entries in either instance.
 func VfC08_flush_qx() {
-	vfFlushRunX(vfPreCfg{nNH: 2, nNHG: 2, nTop: 2, members: 1, topKinds: []int{vfKV4}}, false, true, false, false)
+	vfFlushRunP(vfPreCfg{nNH: 2, nNHG: 2, nTop: 2, members: 1, topKinds: []int{vfKV4}}, false, true, false, false, true)
 }
 
 func VfC08_flush_t() {
